@@ -1,0 +1,6 @@
+//go:build verif
+
+package md5crypt
+
+// VerifPermFinal returns a copy of the final permutation table.
+func VerifPermFinal() []byte { return append([]byte(nil), permFinal[:]...) }
